@@ -127,3 +127,64 @@ def field_path(place):
         elif p['p'] == 'downcast':
             out.append('<' + p['variant'] + '>')
     return out
+
+
+def must_derive(fn, start, init, tyfilter, gens=(), avoid=()):
+    """Forward must-analysis over MIR: which locals hold, on every path from `start`, a value derived from the initial
+    locals `init` (or from the result of a call in block set `gens`). Only operands whose type mentions `tyfilter` carry the
+    fact (a cheap field-sensitivity by type: `(Cursor, Node).1` does not carry a Cursor fact). Returns {block: set at the
+    terminator, before the call's destination is written}. Blocks in `avoid` are not entered."""
+    blocks = fn.mir['blocks']
+    avoid = set(avoid)
+
+    def op_in(op, st):
+        return 'l' in op and op['l'] in st and tyfilter in op.get('ty', '')
+
+    def transfer(bi, st):
+        st = set(st)
+        for s in blocks[bi]['stmts']:
+            if s['s'] != 'assign':
+                continue
+            rv = s['rv']
+            if rv['r'] in ('ref', 'rawptr', 'discr'):
+                ops = [dict(rv['place'], o='copy')]
+            else:
+                ops = [o for o in ([rv.get('op')] + list(rv.get('ops', [])) + [rv.get('a'), rv.get('b')]) if o]
+            tainted = any(op_in(o, st) for o in ops)
+            l = s['place']['l']
+            if not s['place']['proj']:
+                if tainted:
+                    st.add(l)
+                else:
+                    st.discard(l)
+            elif tainted:
+                st.add(l)
+        return st
+
+    at_term = {}
+    IN = {start: set(init)}
+    work = [start]
+    while work:
+        bi = work.pop()
+        st = transfer(bi, IN[bi])
+        at_term[bi] = st
+        t = blocks[bi]['term']
+        for nb in fn.succ(bi):
+            if nb in avoid:
+                continue
+            out = set(st)
+            if t['t'] == 'call' and nb == t.get('target'):
+                d = t['dest']['l']
+                if bi in gens or any(op_in(a, st) for a in t['args']):
+                    out.add(d)
+                else:
+                    out.discard(d)
+            if nb not in IN:
+                IN[nb] = out
+                work.append(nb)
+            else:
+                new = IN[nb] & out
+                if new != IN[nb]:
+                    IN[nb] = new
+                    work.append(nb)
+    return at_term
